@@ -17,7 +17,7 @@ INFO = {
                    'relative order of deadline expiry, validator completion and packet arrival is one path of the real '
                    'asyncio machinery on the virtual clock.  A reference simulator of the statement gives the admissible '
                    'outcomes per Interest (ties at an instant admit both).',
-    'bounds': {'quick': {'interests': '1..2 on names from {/a, /a/b, /a/c, /a/b/<digest>, /a/b/<wrong digest>}',
+    'bounds': {'quick': {'interests': '1..2 on names from {/a, /a/b, /a/c, /a/b/<digest>, /a/b/<wrong digest>, /a/<digest of the packet named /a/b>}',
                          'events': '0..2', 'lifetime_ms': '[1,10000]', 'gaps_ms': '[1,10000]',
                          'validator_latency_ms': '[0,20000]', 'front_ends': 'appv2 and legacy app'},
                'thorough': {'interests': '1..3', 'events': '0..3'}},
@@ -45,6 +45,9 @@ def _setup():
     inames = [enc.Name.from_str(n) for n in NAMES]
     inames.append(enc.Name.from_str('/a/b') + [enc.Component.from_bytes(dig, 1)])
     inames.append(enc.Name.from_str('/a/b') + [enc.Component.from_bytes(wrong, 1)])
+    # the digest of a packet with a LONGER name (/a/b) appended to /a: names no packet unless CanBePrefix is set
+    inames.append(enc.Name.from_str('/a') + [enc.Component.from_bytes(dig, 1)])
+    _C.update(idig={3: dig, 4: wrong, 5: dig}, dhash=[hashlib.sha256(d).digest() for d in datas])
     _C.update(datas=datas, inames=[[bytes(c) for c in n] for n in inames],
               dnames=[[bytes(c) for c in enc.Name.from_str(n)] for n in DATA_NAMES])
     return _C
@@ -56,8 +59,11 @@ def ref_matches(iname_idx, cbp, d_idx):
     iname = C['inames'][iname_idx]
     dname = C['dnames'][d_idx]
     if iname_idx >= 3:
-        # implicit digest: the Interest names exactly one packet
-        return iname[:-1] == dname and iname_idx == 3 and d_idx == 1
+        # implicit digest: the packet hash must equal the digest, and the name without the digest component must be
+        # the Data name (or a proper prefix of it when CanBePrefix is set), as the statement puts it
+        iname = iname[:-1]
+        if C['idig'][iname_idx] != C['dhash'][d_idx]:
+            return False
     if iname == dname:
         return True
     if len(iname) < len(dname) and dname[:len(iname)] == iname:
@@ -486,6 +492,8 @@ def cases(tier, seed):
         if quick:
             for order in _orders(2, 1):
                 add(front, 2, 1, order, [[1], [1, 0, 3] if front == 'v2' else [1, 0]], [1, 3], None, 40)
+            # an implicit digest taken from a packet with a longer name, next to the Interest for that packet
+            add(front, 2, 1, 'xxe', [[5], [1]], [1], [['data']], 20)
             # two events: timing-focused families (kinds restricted; the legacy front-end gets the smaller menu in quick)
             add(front, 2, 2, 'xxee', [[1], [1, 0]], [1], [['data'], ['data']], 60)
             add(front, 2, 2, 'xexe', [[1], [1]], [1], [['nack', 'cancel'] if front == 'v2' else ['nack'], ['data', 'nack']], 60)
